@@ -27,7 +27,8 @@ Granularity (`fine` parameter):
           processes can do before it is performed at once, without a choice: the first instruction of a process, `join`,
           `recv`/`recv_bytes`/`get` (single consumer; producers only append), and `send`/`send_bytes` unless the pipe is
           empty and read by the main process (which uses `wait`: the send races with it).  Choices remain between
-          `Queue.put`s, sends that make a connection of the main process ready, and `wait` (incl. the subset it returns),
+          `Queue.put`s, sends that make a connection of the main process ready while it is not blocked receiving from
+          that connection, and `wait` (which returns all ready connections or any single one),
           i.e. one representative per class of equivalent interleavings (plus some redundancy: no sleep sets).
           Assumption checked at run time (`por_violations`): only the main process calls `wait`.
 """
@@ -341,6 +342,7 @@ class _Pipe:
     def __init__(self, sim):
         self.buf = collections.deque()
         self.child_reader = False   # the read end was handed to a child process (children only recv, never wait)
+        self.recv_blocked = 0       # a process is blocked in recv/recv_bytes on this pipe
         self.label = f"pipe{sum(1 for o in sim.objects if isinstance(o, Conn)) // 2}"
 
 
@@ -379,13 +381,19 @@ class Conn:
         sim.log("send_bytes", self._pipe, b)
 
     def _send_commutes(self):
-        return bool(self._pipe.buf) or self._pipe.child_reader
+        # non-empty: readiness does not change; reader is a child: no `wait`; reader blocked in recv on this very pipe:
+        # it cannot reach a `wait` before this send
+        return bool(self._pipe.buf) or self._pipe.child_reader or self._pipe.recv_blocked > 0
 
     def _take(self, kind, prim):
         sim = _sim()
         if not self.readable:
             raise OSError("connection is write-only")
-        sim.sync(lambda: bool(self._pipe.buf), f"{prim} {self.label}", force=True, eager=True)
+        self._pipe.recv_blocked += 1
+        try:
+            sim.sync(lambda: bool(self._pipe.buf), f"{prim} {self.label}", force=True, eager=True)
+        finally:
+            self._pipe.recv_blocked -= 1
         k, v = self._pipe.buf.popleft()
         if k != kind:
             sim.protocol_errors.append(f"{prim} on {self.label} but the next message was sent with {'send' if k == 'obj' else 'send_bytes'}")
@@ -562,7 +570,8 @@ def wait(object_list, timeout=None):
     sim.sync(lambda: any(c.ready() for c in conns), "wait", force=True)
     ready = [c for c in conns if c.ready()]
     if len(ready) > 1:
-        subsets = ordered_subsets(len(ready))
+        # "por": the full list or one connection (what a longer list does is a sequence of these)
+        subsets = ordered_subsets(len(ready)) if sim.mode != "por" else [tuple(range(len(ready)))] + [(i,) for i in range(len(ready))]
         pick = subsets[sim.chooser.choose(len(subsets), "wait", [c.label for c in ready])]
         ready = [ready[i] for i in pick]
     sim.log("wait", None, tuple(c.label for c in ready))
